@@ -99,6 +99,15 @@ func NewIfdReader(l zerolog.Logger) ifdReader {
 func (ir *ifdReader) ResetReader(r io.Reader) {
 	ir.buffer.clear()
 	ir.reader = r
+	ir.eof = false
+}
+
+// readError remembers that the underlying reader has reached its end so
+// that the remaining tags are not read one by one from an exhausted reader.
+func (ir *ifdReader) readError(err error) {
+	if err == io.EOF || err == io.ErrUnexpectedEOF {
+		ir.eof = true
+	}
 }
 
 // SetCustomTagParser sets a custom tag parser
@@ -123,6 +132,7 @@ type ifdReader struct {
 	tiffHeaderOffset uint32
 	firstIfdOffset   uint32
 	exifLength       uint32
+	eof              bool // the underlying reader is exhausted
 }
 
 func (ir *ifdReader) readIfdHeader(ifd ifds.Ifd) (err error) {
@@ -201,7 +211,7 @@ func (ir *ifdReader) readIfd(ifd ifds.Ifd) (err error) {
 		return err
 	}
 
-	for t := ir.buffer.currentTag(); ir.buffer.validTag(); t = ir.buffer.advanceBuffer() {
+	for t := ir.buffer.currentTag(); ir.buffer.validTag() && !ir.eof; t = ir.buffer.advanceBuffer() {
 
 		if t.IsType(tag.TypeIfd) {
 			if err = ir.seekToTag(t); err != nil { // seek to next tag value
@@ -286,6 +296,7 @@ func (ir *ifdReader) fastRead(n int) (buf []byte, err error) {
 	}
 	if br, ok := ir.reader.(BufferedReader); ok {
 		if buf, err = br.Peek(n); err != nil {
+			ir.readError(err)
 			if ir.logLevelError() {
 				ir.logError(err).Msg("Peek error")
 			}
@@ -306,6 +317,7 @@ func (ir *ifdReader) fastRead(n int) (buf []byte, err error) {
 	read, err := io.ReadFull(ir.reader, ir.buffer.buf[:n])
 	ir.po += uint32(read)
 	if err != nil {
+		ir.readError(err)
 		if ir.logLevelError() {
 			ir.logError(err).Msg("Read error")
 		}
